@@ -33,7 +33,7 @@ inductive L where
 inductive LErr where
   | assocItem      -- an element of an assoc list is not a pair
   | assocKey       -- the car of an assoc pair is neither a string nor a symbol
-  | unsupported    -- a value a bag cannot hold (in this model: bare tail, time)
+  | unsupported    -- a value a bag cannot hold (in this model: a bare tail)
   deriving DecidableEq, Repr
 
 namespace L
@@ -68,6 +68,7 @@ def toLisp : J → L
   | int i => .int i
   | flo t => .dflo t
   | str s => .str s
+  | .time t => .time t
   | arr xs => .list (toLispL xs)
   | obj kvs => .list (toLispM kvs)
 def toLispL : List J → List L
@@ -97,7 +98,7 @@ def ofLisp : L → Except LErr J
   | .dflo t => .ok (flo t)
   | .str s => .ok (str s)
   | .sym s => if lower s = ":false" then .ok (.bool false) else .ok (str s)
-  | .time _ => .error .unsupported
+  | .time t => .ok (.time t)
   | .tail _ => .error .unsupported
   | .list [] => .ok null
   | .list (x :: xs) =>
@@ -140,6 +141,7 @@ def Faithful : J → Bool
   | int _ => true
   | flo _ => true
   | str _ => true
+  | .time _ => true
   | arr [] => false
   | arr (x :: xs) => Faithful x && FaithfulL xs
   | obj [] => false
